@@ -428,11 +428,14 @@ Definition c02e_exact (c : cfg) (ext : Z -> Z) (e : estate) (d : Z) : bool := su
 Definition holds_C02_esm (c : cfg) (ext : Z -> Z) (denoms : list Z) (e : estate) : bool := forallb (c02e_backing c ext e) denoms.
 
 (* the pro-rata bound of one payout: the collateral [q] handed out for [amt] debt tokens is at most the
-   recorded worth of those tokens times the recorded share of that collateral, converted at the rate, plus
-   three base units of rounding:
-     q <= amt * tw * share * dec_c / (dec_d * rate * 10^18) + 3            (tw = TruncateInt(DebtTokenWorth)) *)
+   recorded worth of those tokens times the recorded share of that collateral, converted at the rate, plus the
+   rounding of the four Dec operations:
+     q <= amt * tw * share * dec_c / (dec_d * rate * 10^18)
+          + (dec_c / 10^18) * (share / (rate * 10^18) + 1 / (2 * rate) + 1)          (tw = TruncateInt(DebtTokenWorth))
+   i.e. at most 3 base units of rounding when dec_c <= 10^18, share <= 1 and rate >= 1 (Proofs/EsmLifeLaws.v) *)
 Definition prorata_ok (q amt tw share rate dec_c dec_d : Z) : bool :=
-  q * dec_d * rate * P18 <=? amt * tw * share * dec_c + 3 * dec_d * rate * P18.
+  q * dec_d * rate * P18 * P18 <=? amt * tw * share * dec_c * P18 + dec_d * dec_c * (share + HALF18 + rate * P18).
+Definition prorata_params (share rate dec_c dec_d : Z) : bool := (0 <=? share) && (0 <? rate) && (0 <=? dec_c) && (0 <? dec_d).
 
 (* the law of a redemption, on the observation before ([e]) and after ([e']) a SUCCESSFUL MsgCollateralRedemption:
    supply of the debt denom falls by exactly [amt] and so do the sender's balance and the debt record; no other
@@ -454,7 +457,7 @@ Definition holds_C02_redeem (lc : lcfg) (ec : ecfg) (denoms : list Z) (e : estat
               (0 <=? q) && (bal s' from (ar_asset w) - bal s from (ar_asset w) =? q) &&
               (bal s ESMA (ar_asset w) - bal s' ESMA (ar_asset w) =? q) &&
               match rate_of lc s app (ar_asset w) with
-              | Some rate => (q =? 0) || prorata_ok q amt tw (ar_share w) rate dec_c dec_d
+              | Some rate => (q =? 0) || negb (prorata_params (ar_share w) rate dec_c dec_d) || prorata_ok q amt tw (ar_share w) rate dec_c dec_d
               | None => q =? 0 end
           | _, _ => false end
         else true) (app_recs (recs e) app)
